@@ -7,6 +7,7 @@ def check(ctx, rep):
     rxr.rx_1(ctx, rep, pf.classes)
     rxr.rx_9(ctx, rep)
     rxr.rx_11(ctx, rep)
+    rxr.rx_12(ctx, rep)          # the BOM is zero-width only as the first character
     rxr.rx_10(ctx, rep, ['parso/python/tokenize.py', 'parso/python/prefix.py', 'parso/tree.py', 'parso/python/tree.py', 'parso/utils.py'])
     tok.tok_1_2(ctx, rep, pf.acc)
     tok.tok_3(ctx, rep, pf.acc)
@@ -22,4 +23,8 @@ def check(ctx, rep):
     _eff.eff_1(ctx, rep, only=[('parso/python/tokenize.py', 'tokenize'), ('parso/python/tokenize.py', 'tokenize_lines'), ('parso/grammar.py', 'PythonGrammar._tokenize_lines'), ('parso/grammar.py', 'PythonGrammar._tokenize')], minimum=5)
     from ..rules import normr as _n11
     _n11.norm_11(ctx, rep)      # prefix part columns: first-line state does not leak into later lines
+    from ..rules import normr as _n13
+    _n13.norm_13(ctx, rep)      # a prefix is split with a start position computed from its own leaf
+    from ..rules import tok as _tok12
+    _tok12.tok_12(ctx, rep)     # what a scan step emits and where the scan continues agree
     rep.note('Not decided: true positions.')
